@@ -4,11 +4,16 @@ LEVEL_TEXT = ("K-obligations: compression / permutation cores (SHA-256/512, BLAK
               "inputs (CBMC + cvc5); G-obligations: padding, buffering, chunking, HMAC, HKDF, BLAKE2b-KDF glue executed "
               "symbolically with the compression/hash cores as uninterpreted functions, for all contents at every "
               "enumerated length and all symbolic split points.")
-TRUSTED = ["CBMC 6.11 + cvc5 1.0", "spec models in models/ (validated against FIPS/RFC vectors by bin/setup)",
+LEVEL_TEXT += (" BLAKE2b and SipHash (E2 irsym): crypto_generichash(_blake2b) one-shot, salt/personal and init/update/final at enumerated split points, "
+               "crypto_shorthash_siphash24/x24: the real reference units' LLVM IR is executed with message, key, salt and personalisation ALL symbolic and "
+               "compared bit for bit with RFC 7693 / SipHash specification models over one shared bit-level graph (modular sums canonicalised); "
+               "out-of-range output/key lengths must be refused.")
+E2_EQUIV = ["blake2b-ref-spec", "siphash-ref-spec"]
+TRUSTED = ["CBMC 6.11 + cvc5 1.0", "irsym LLVM-IR interpreter; BLAKE2b spec model validated against Python hashlib, SipHash against the paper's vector (development) and by structural agreement with the reference unit", "spec models in models/ (validated against FIPS/RFC vectors by bin/setup)",
            "composition: padding/chunking over an abstract compression function + compression function == spec => hash == spec"]
 ASSUMPTIONS = ["message lengths in the enumerated sets"]
 OUTSIDE = ["Poly1305 block arithmetic mod 2^130-5 (symbolic multiplication: no back end decides it; see DESIGN.md)", "poly1305_sse2.c",
-           "messages longer than the bounds", "SIMD BLAKE2b compression units (E2)"]
+           "messages longer than the bounds / other split points", "SIMD BLAKE2b compression units vs the reference unit: under C10 (E2, thorough tier)"]
 
 
 def obligations(tier):
